@@ -165,8 +165,16 @@ def gen_convert(f, consts, utils_tree):
     body = nodoc(f.body)
     if [a.arg for a in f.args.args] != ['self', 'out_file']:
         fail('convert_to_segy signature changed')
+    # the D46 repair: `source_headerbytes = self.headerbytes` before the format choice and the final call inside
+    # try: ... finally: self.headerbytes = source_headerbytes  (the substituted format code does not stay on the object)
+    restores = False
+    if len(body) == 5 and isinstance(body[2], ast.Assign) and ast.unparse(body[2]) == 'source_headerbytes = self.headerbytes' \
+            and isinstance(body[4], ast.Try) and not body[4].handlers and not body[4].orelse and len(body[4].body) == 1 \
+            and [ast.unparse(x) for x in body[4].finalbody] == ['self.headerbytes = source_headerbytes']:
+        restores = True
+        body = [body[0], body[1], body[3], body[4].body[0]]
     if len(body) != 4:
-        fail(f'convert_to_segy: expected 4 statements, found {len(body)}')
+        fail(f'convert_to_segy: expected 4 statements (or the 5 of the restoring form), found {len(body)}')
     s_if, s_code, s_fmt, s_call = body
     # 1 spec
     if not (isinstance(s_if, ast.If) and is_self_attr(s_if.test) and s_if.test.attr in ('is_3d', 'is_2d', 'structured')):
@@ -230,6 +238,9 @@ def gen_convert(f, consts, utils_tree):
     t = []
     t.append('(* ---- convert_to_segy: the segyio.spec ---- *)')
     t.append(f'Definition export_branch_flag : reader_flag := Flag_{flag}.')
+    t.append('(* true: convert_to_segy puts the object\'s headerbytes back after write_segy (try/finally); false: a substituted\n'
+             '   format code stays in self.headerbytes and reaches whatever the same object writes next (D46) *)')
+    t.append(f'Definition export_restores_headerbytes : bool := {"true" if restores else "false"}.')
     t.append(f'Definition export_spec_then : list (spec_field * spec_src) :=\n  {fmt_list(br_true)}.')
     t.append(f'Definition export_spec_else : list (spec_field * spec_src) :=\n  {fmt_list(br_false)}.')
     t.append('\n(* ---- convert_to_segy: data sample format code (offsets relative to the stored SEG-Y file header,\n'
@@ -291,8 +302,10 @@ def gen_write(f, consts):
             fv = w.items[0].optional_vars.id
             ops.append('OpCreate')
             for s in nodoc(w.body):
-                if ast.unparse(s) == 'self.read_variant_headers()':
+                if ast.unparse(s) in ('self.read_variant_headers()', 'self._load_variant_headers(False)'):
+                    # the second form (D47 repair) first drops arrays an earlier query left in the other padding mode
                     ops.append('OpReadVariantHeaders')
+                    defs['reload'] = ast.unparse(s) == 'self._load_variant_headers(False)'
                 elif isinstance(s, ast.Assign) and len(s.targets) == 1 and isinstance(s.targets[0], ast.Attribute) \
                         and isinstance(s.targets[0].value, ast.Name) and s.targets[0].value.id == fv:
                     what = s.targets[0].attr
@@ -342,6 +355,8 @@ def gen_write(f, consts):
     if 'trace' not in defs or 'header' not in defs:
         fail('write_segy: trace or header bulk write not found')
     t = ['(* ---- write_segy: operation order ---- *)',
+         '(* true: write_segy loads the header arrays through _load_variant_headers (reloads after a padding-mode switch) *)\n'
+         'Definition export_headers_reload_on_mode_switch : bool := ' + ('true' if defs.get('reload') else 'false') + '.',
          'Definition export_ops : list export_op :=\n  [' + '; '.join(ops) + '].',
          '(* segyfile.trace = [self.get_trace(<this>, override_unstructured_mapping=<flag>) for i in range(self.tracecount)] *)',
          f'Definition export_trace_index (tracecount i : Z) : Z := {defs["trace"][0]}.',
